@@ -122,3 +122,24 @@ Section C02.
         intros r Hr. apply Hexp in Hr. destruct Hr.
       + destruct R; [|discriminate]. destruct branch; [|discriminate]. intros _. split; auto. discriminate. Qed.
 End C02.
+
+(* ---------- end points: `heads` covers the whole history, `base` removes everything applied ---------- *)
+Section ENDPOINTS.
+  Variable G : graph.
+  Hypothesis WF : wf_refs G.
+  Hypothesis AC : ~ cyclic (all_down G).
+  Let ND : NoDup (ids G) := proj1 WF.
+
+  Lemma every_revision_below_a_real_head x : In x (ids G) -> AncOf G (real_heads_of G) x.
+  Proof. intros Hx. destruct (reaches_head G all_down_r ND AC x Hx) as [h [Hh [Hnil P]]].
+    exists h. split; [|exact P]. apply no_children_in_heads; auto. Qed.
+
+  Lemma every_revision_above_a_base x : In x (ids G) -> DescOf G (bases_of G) x.
+  Proof. intros Hx. assert (~ cyclic (down G)) as ACd by (apply acyclic_down; auto).
+    destruct (reaches_base G r_down ND (wf_down G WF) ACd x Hx) as [b [Hb [Hnil P]]].
+    exists b. split.
+    - apply bases_of_spec. unfold ids in Hb. apply in_map_iff in Hb. destruct Hb as [r [E Hr]]. subst b.
+      unfold of_rev in Hnil. rewrite (find_rev_NoDup G r ND Hr) in Hnil. exists r; auto.
+    - unfold Anc. apply (path_mono (down G) (all_down G) (down_sub_all G)).
+      apply (path_converse (nextrev G) (down G)); [|exact P]. intros a c. apply (up_dn G r_down ND). Qed.
+End ENDPOINTS.
